@@ -65,11 +65,13 @@ class Collector:
     self.samples = []
     self.largest = None
     self.errors = []
+    self.slowest = (0.0, None)
 
   def handle(self, case, source='generated'):
     case = core.canon(case)
     self.evaluations += 1
     signal.setitimer(signal.ITIMER_REAL, CASE_TIMEOUT_S)
+    t_case = time.time()
     try:
       res = self.mod.execute(case)
     except CaseTimeout:
@@ -81,6 +83,9 @@ class Collector:
       return None
     finally:
       signal.setitimer(signal.ITIMER_REAL, 0)
+      dt = time.time() - t_case
+      if dt > self.slowest[0]:
+        self.slowest = (dt, case)
     for lab in res.labels:
       self.labels[lab] += 1
     if res.nontrivial:
@@ -124,6 +129,7 @@ class Collector:
         'unknown': self.unknown,
         'samples': samples,
         'errors': self.errors[:5],
+        'slowest': self.slowest,
     }
 
 
@@ -285,6 +291,7 @@ def main(argv=None):
     samples = corpus.summary()['samples'][:2]
     errors = []
     exhaustive_sizes = collections.Counter()
+    slowest = max([o.get('slowest', (0.0, None)) for o in outs], key=lambda x: x[0])
     for o in outs:
       evaluations += o['evaluations']
       nontrivial |= o['nontrivial']
@@ -348,7 +355,7 @@ def main(argv=None):
       'property_id': pid,
       'tier': tier,
       'seed': seed,
-      'level': 'exploration',
+      'level': getattr(mod, 'LEVEL', 'exploration'),
       'coverage': {
           'evaluations': evaluations,
           'distinct_nontrivial': len(nontrivial),
@@ -364,6 +371,7 @@ def main(argv=None):
           'corpus_cases': len(corpus_files),
           'generated_budget': budget,
           'shards': nshards,
+          'slowest_case_s': round(slowest[0], 2),
       },
       'assumptions': list(getattr(mod, 'ASSUMPTIONS', [])),
       'wall_s': round(wall, 2),
@@ -374,6 +382,8 @@ def main(argv=None):
     json.dump(evidence, f, indent=1, sort_keys=True)
   print('%s %s seed=%d evaluations=%d distinct_nontrivial=%d known_hits=%s wall=%.1fs' % (
       pid, tier, seed, evaluations, len(nontrivial), dict(known_hits), wall))
+  if slowest[0] > 10:
+    print('slowest case %.1fs: %s' % (slowest[0], json.dumps(slowest[1])[:400]))
   top = sorted(labels.items(), key=lambda kv: -kv[1])[:25]
   print('classes: ' + ', '.join('%s=%d' % kv for kv in top))
   for sig, detail, path in violations:
